@@ -1,7 +1,7 @@
 """Configuration of ./check C17 (see pylib/props.py)."""
 CFG = dict(
         coq=["props/C17.vo"],
-        tie=["gen/Tie_C17.vo"],
+        tie=["gen/Tie_C17.vo", "gen/Tie_Code_Validate.vo"],
         model_vo=["model/DecRun.vo"],
         extract="Ex_C17",
         level_text="For every entry point (ValidateStrListBytes, ValidateBlockBytes, StrListDecoder.Read/ReadBytes/Decode-on-"
